@@ -68,7 +68,8 @@ J == UNION {{LET pr == JPairs(n)[k]  h == HashS(pr[1]) + 7 * HashS(pr[2]) + lag 
                \* embedding dimensions of the two series (delay 1): only with two components do the metrics differ
                dx |-> IF n - Abs(lag) >= 2 /\ (h \div 27) % 2 = 1 THEN 2 ELSE 1,
                dy |-> IF n - Abs(lag) >= 2 /\ (h \div 54) % 3 >= 1 THEN 2 ELSE 1,
-               mode |-> IF (h \div 9) % 3 = 2 THEN "rr" ELSE "thr",
+               \* (thresholds in units of the standard deviation of each series: every fourth of the fixed-threshold cases)
+               mode |-> IF (h \div 9) % 3 = 2 THEN "rr" ELSE IF (h \div 9) % 3 = 1 /\ h % 2 = 1 THEN "tstd" ELSE "thr",
                p1n |-> IF (h \div 9) % 3 = 2 THEN 1 + (h % 3) ELSE 1 + (h % 3),
                p1d |-> IF (h \div 9) % 3 = 2 THEN 4 ELSE 2,
                p2n |-> IF (h \div 9) % 3 = 2 THEN 1 + ((h \div 2) % 3) ELSE 1 + ((h \div 2) % 3),
